@@ -220,7 +220,13 @@ var verifTildeKeys = []struct {
 func VerifC09DecodeLegacy() {
 	m := int(zzverif.Byte("m")) // xterm modifier parameter, 1 = none
 	zzverif.Assume(m >= 1 && m <= 16)
-	switch zzverif.Choose("form", 5) {
+	switch zzverif.Choose("form", 6) {
+	case 5: // printable text: the key's text is the whole grapheme cluster, as typed
+		g := []string{"a", "Z", "é", "e\u0301", "\U0001F1E9\U0001F1EA", "\U0001F469‍\U0001F680", "世"}[zzverif.Choose("grapheme", 7)]
+		k := decodeKey(ansi.Print{Grapheme: g, Width: 1})
+		first := []rune(g)[0]
+		zzverif.Assert(k.Text == g, "print-text-is-the-whole-grapheme")
+		zzverif.Assert(k.Keycode == first || k.Keycode == unicode.ToLower(first), "print-keycode-is-the-first-code-point")
 	case 0: // C0
 		b := zzverif.Byte("b")
 		zzverif.Assume(b < 0x20)
